@@ -1,7 +1,7 @@
 (* C14 -- the tables of Gen/GenCodegen.v (regenerated from /repo on every run) packaged as the parameters of
    Model/Fmt.v (formatter), Model/FmtPratt.v (parser) and the renderer. *)
 From Coq Require Import List NArith Bool Arith.
-From PV Require Import Lib.ListX Model.FmtLit Model.FmtPratt Model.Fmt Gen.GenCodegen.
+From PV Require Import Lib.ListX Model.FmtLit Model.FmtPratt Model.Fmt Model.FmtStmt Gen.GenCodegen.
 Import ListNotations.
 Local Open Scope N_scope.
 
@@ -30,6 +30,7 @@ Definition F_prql : ftab := {|
   cbl := fun u => nth u GenCodegen.fmt_can_bind_left false;
   sym_bin := fun o => sym_index (nth o GenCodegen.bin_text []);
   sym_un := fun u => sym_index (nth u GenCodegen.un_text []);
+  annot_ctx := GenCodegen.fmt_annotation_ctx;
   alias_ctx := GenCodegen.fmt_alias_ctx;
   noalias_ctx := GenCodegen.fmt_noalias_ctx;
   case_ctx := GenCodegen.fmt_case_ctx;
@@ -70,9 +71,11 @@ Definition fmt_toks (e : expr) : list tok := fmt_top F_prql e.
 Definition parse_prql (fuel : nat) (ts : list tok) : option expr := parse P_prql fuel ts.
 
 (* an annotation expression (`@expr`, Stmt::write) is written at context strength >= fmt_annotation_ctx, position
-   Unspecified, nothing unbound; the parser reads it with `expr()`.  The number must parenthesise calls (hence
-   lambdas) and aliased expressions. *)
-Definition annotation_ctx_ok : bool :=
-  (GenCodegen.fmt_call_strength <=? GenCodegen.fmt_annotation_ctx) && (GenCodegen.fmt_alias_ctx <? GenCodegen.fmt_annotation_ctx).
-Definition fmt_annotation_toks (e : expr) : list tok := fmt F_prql e (GenCodegen.fmt_annotation_ctx, PUnspec, false).
+   Unspecified, nothing unbound; the parser reads it with `expr()` *)
+Definition fmt_annotation_toks (e : expr) : list tok := fmt F_prql e (annot_ctx F_prql, PUnspec, false).
 Definition parse_expr_prql (fuel : nat) (ts : list tok) : option expr := parse_expr P_prql fuel ts.
+
+(* whole programs *)
+Definition fmt_prog_toks (ss : list stmt) : list tok := fmt_prog F_prql ss.
+Definition fmt_prog_text (ss : list stmt) : str := render R_prql (fmt_prog F_prql ss).
+Definition parse_prog_prql (fuel : nat) (ts : list tok) : option (list stmt) := parse_prog P_prql fuel ts.
